@@ -91,6 +91,7 @@ class Z3Logic:
     def ge(self, a, b): return self.num(a) >= self.num(b)
     def gt(self, a, b): return self.num(a) > self.num(b)
     def teq(self, a, b): return self.t(a) == self.t(b)
+    def teq_offset(self, a, ns, b): return self.t(a) + ns == self.t(b)
     def tle(self, a, b): return self.t(a) <= self.t(b)
     def tlt(self, a, b): return self.t(a) < self.t(b)
 
@@ -236,6 +237,7 @@ class KleeneLogic:
     def gt(self, a, b): return self.lt(b, a)
     def ge(self, a, b): return self.le(b, a)
     def teq(self, a, b): return K(self.t(a) == self.t(b))
+    def teq_offset(self, a, ns, b): return K(self.t(a) + ns == self.t(b))
     def tle(self, a, b): return K(self.t(a) <= self.t(b))
     def tlt(self, a, b): return K(self.t(a) < self.t(b))
 
